@@ -539,10 +539,8 @@ class NodeDeref:
 
     def __repr__(self):
         return (
-            self.expression
-            + "["
-            + self.index
-            + (", " + self.default_value if self.default_value else "")
+            f"{self.expression}[{self.index}"
+            + (f", {self.default_value}" if self.default_value else "")
             + "]"
         )
 
@@ -972,15 +970,9 @@ class NodeFor:
             + (
                 self.identifiers[0]
                 if len(self.identifiers) == 1
-                else "[" + self.identifiers + "]"
+                else "[" + ", ".join(self.identifiers) + "]"
             )
-            + " in "
-            + self.what
-            + " "
-            + self.expression
-            + " do "
-            + self.block
-            + ")"
+            + f" in {self.what} {self.expression} do {self.block})"
         )
 
     def collectVars(self, freeVars, boundVars, additionalBoundVars):
